@@ -350,7 +350,10 @@ void ExpressionBuilder::expr_call_end(uint32_t n)
 
     case PROCESS_SET:
         if (expr.size() - 1 != id.get_type().size()) {
+            // No lookup can be built: surplus arguments would index below the process type.
             handle_error(TypeException{"$Wrong_number_of_arguments"});
+            e = make_constant(0);
+            break;
         }
         instance = static_cast<instance_t*>(id.get_symbol().get_data());
 
